@@ -39,6 +39,34 @@ theorem c29_local_function_names (s : NSt) (locals : List Nat) (i : Nat) (n : St
     rw [List.mem_zipIdx_iff_getElem?]
     simpa using hk
 
+/-- **imported functions.** The name section names an index `i` below the number of emitted function imports with exactly the
+    custom name stored on the `i`-th *emitted* function import entry (the live one at position `pos` of the import list) — the
+    entity that has function index `i` in the encoded module (`c06_index_space_is_vector`); deleted import entries and imports of
+    other kinds in front of it do not shift the name (the repaired F33). -/
+theorem c29_import_function_names (s : NSt) (locals : List Nat) (i : Nat) (n : String)
+    (hi : i < ((s.e.imports.zipIdx.filter (fun (p : ImpEntry × Nat) => p.1.sp == some Sp.F && !p.1.del)).length)) :
+    (i, n) ∈ emittedFnames s locals ↔
+      ∃ e pos, (s.e.imports.zipIdx.filter (fun (p : ImpEntry × Nat) => p.1.sp == some Sp.F && !p.1.del))[i]? = some (e, pos)
+        ∧ getName s.impName pos = some n := by
+  simp only [emittedFnames, List.mem_append, List.mem_filterMap, Option.map_eq_some_iff, Prod.mk.injEq]
+  constructor
+  · rintro (⟨⟨⟨e, pos⟩, c⟩, hmem, nm, hnm, hc, hn⟩ | ⟨⟨u, k⟩, _, nm, _, hk, _⟩)
+    · have := List.mem_zipIdx hmem
+      simp only [Nat.zero_add] at this hc
+      subst hc
+      refine ⟨e, pos, ?_, by rw [← hn]; exact hnm⟩
+      rw [List.getElem?_eq_getElem this.2.1]; exact congrArg some this.2.2.symm
+    · simp only at hk; omega
+  · rintro ⟨e, pos, hget, hn⟩
+    refine .inl ⟨((e, pos), i), ?_, n, hn, rfl, rfl⟩
+    rw [List.mem_zipIdx_iff_getElem?]
+    simpa using hget
+
+/-- non-vacuity: a global import and a deleted function import in front; the name set on import position 2 is emitted at index 0 -/
+example :
+    let s : NSt := { e := { imports := [⟨some Sp.G, false, 1⟩, ⟨some Sp.F, true, 2⟩, ⟨some Sp.F, false, 3⟩] }, impName := [(2, "imp")] }
+    emittedFnames s [] = [(0, "imp")] := by decide
+
 /-- **naming call on a local function**: `set_fn_name(id, name)` with `id` designating a local function stores the name
     on the function that `id` designates and on no other; every other name is untouched -/
 theorem c29_set_fn_name_local (s : NSt) (id : Nat) (name : String) (it : Item)
